@@ -31,9 +31,13 @@ where
   }
 
   fn set_ref_count(&self) {
+    // number of subscribers as last reported by the subject
+    let current = Arc::new(RwLock::new(0usize));
     {
       let subscription = Arc::clone(&self.subscription);
+      let current = Arc::clone(&current);
       self.subject.set_on_unsubscribe(move |count| {
+        *current.write().unwrap() = count;
         if count == 0 {
           if let Some(sbsc) = &*subscription.read().unwrap() {
             sbsc.unsubscribe();
@@ -45,20 +49,20 @@ where
     let source = self.source.clone();
     let subject = self.subject.clone();
     let subscription = Arc::clone(&self.subscription);
+    let connected = Arc::new(RwLock::new(false));
 
     self.subject.set_on_subscribe(move |count| {
+      *current.write().unwrap() = count;
       if count == 1 {
-        // connect
+        // connect (once)
+        if std::mem::replace(&mut *connected.write().unwrap(), true) {
+          return;
+        }
         let sbj_next = subject.clone();
         let sbj_error = subject.clone();
         let sbj_complete = subject.clone();
 
-        let mut subscription = subscription.write().unwrap();
-        if subscription.is_some() {
-          return;
-        }
-
-        *subscription = Some(source.subscribe(
+        let observer = Observer::new(
           move |x| {
             sbj_next.next(x);
           },
@@ -68,7 +72,23 @@ where
           move || {
             sbj_complete.complete();
           },
-        ));
+        );
+        // the connection is published before the source is subscribed and no
+        // lock is held meanwhile: a synchronous source emits right here, and
+        // when its last subscriber leaves during that, it can be stopped
+        let sbsc = {
+          let o_unsub = observer.clone();
+          let o_issub = observer.clone();
+          Subscription::new(
+            move || o_unsub.unsubscribe(),
+            move || o_issub.is_subscribed(),
+          )
+        };
+        *subscription.write().unwrap() = Some(sbsc.clone());
+        source.inner_subscribe(observer);
+        if *current.read().unwrap() == 0 {
+          sbsc.unsubscribe();
+        }
       }
     });
   }
